@@ -252,6 +252,17 @@ def run(ctx):
                 path = ''.join(s[1] if s[0] == 'lit' else vals.pop(0) for s in R.merge(ast))
                 ctx.guarded(check_case, {'ast': ast, 'choice': [n], 'spell': n % 2, 'path': path})
         ctx.count('wildcard_count_grid')
+        # every expression of the pool x each of its sample values x position in the rule (named and anonymous)
+        ngrid = 0
+        for rx in R.RE_POOL:
+            for v in R.RE_VALUES.get(rx, []):
+                for nm in ('r', None):
+                    w = ['w', nm, 're', rx]
+                    for ast, path in (([lit('/rel/'), w, lit('/notes')], '/rel/' + v + '/notes'), ([lit('/rel/'), w], '/rel/' + v), ([lit('/'), w, lit('.txt')], '/' + v + '.txt'),
+                                      ([lit('/'), ['w', 'n', 'int', None], lit('/'), w, lit('/'), ['w', 't', None, None]], '/7/' + v + '/tail')):
+                        ctx.guarded(check_case, {'ast': R._fix(ast), 'choice': [1], 'spell': 0, 'path': path})
+                        ngrid += 1
+        ctx.count('regex_pool_grid', ngrid)
         for ast, paths in (([lit('/left-'), ['w', 'x', 'float', None]], ['/left-2.5', '/left-7']),
                            ([lit('/p/'), ['w', 'p', 'path', None], lit('/end/'), ['w', None, 'int', None]], ['/p/a/b/end/12', '/p/x/end/7']),
                            ([lit('/'), ['w', 'a', None, None], lit('/'), ['w', 'b', 're', '[a-c]+'], lit('.html')], ['/tom/abc.html', '/é/a.html'])):
